@@ -4,10 +4,29 @@ From Coq Require Import List NArith Bool Arith.
 From Alp Require Import Base.Str Base.Types Model.Path.
 Import ListNotations.
 
+(* ---- the file name: PurePath(path).relative_to(acq) on '/'-separated names: the components of acq taken off the front;
+   "." when nothing is left; None (ValueError) when acq is not a parent of the path ---- *)
+Fixpoint strip_prefix (a b : list str) : option (list str) :=
+  match a, b with
+  | [], _ => Some b
+  | x :: a', y :: b' => if str_eqb x y then strip_prefix a' b' else None
+  | _ :: _, [] => None
+  end.
+Definition relative_to (p acq : str) : option str :=
+  match strip_prefix (split acq) (split p) with
+  | Some [] => Some [46%N]
+  | Some l => Some (join l)
+  | None => None
+  end.
+(* the name the file is registered under; refused when acq is not a parent or what is left is not a canonical name (fix F-C06d) *)
+Definition file_name (p acq : str) : option str :=
+  match relative_to p acq with Some n => if invalid_import_path n then None else Some n | None => None end.
+
 (* ---- what _import_file looks at (one path on one node) ---- *)
 Record facts := {
   is_symlink : bool; is_regular : bool; dot_name : bool; in_temp_dir : bool; through_symlink : bool;
-  locked : bool; detected : option str;           (* acquisition name returned by the import-detect extension *)
+  locked : bool; ipath : str;                      (* the path being imported, relative to the node root *)
+  detected : option str;           (* acquisition name returned by the import-detect extension *)
   register : bool;
   acq_known : bool; file_known : bool;            (* records exist already *)
   copy_row : option (has * wants) }.              (* record for (file, node), if any *)
@@ -29,6 +48,7 @@ Definition import_decision (f : facts) : outcome :=
        | None => ONoDetection
        | Some acq =>
            if invalid_import_path acq then OBadAcq
+           else if is_none (file_name (ipath f) acq) then OBadAcq
            else if tracked (copy_row f) then ODuplicate
            else if negb (acq_known f) && negb (register f) then OUnregistered
            else if negb (file_known f) && negb (register f) then OUnregistered
